@@ -17,6 +17,7 @@ import CBV.Lemmas.C03Mono
 import CBV.Lemmas.C03Hist
 import CBV.Lemmas.C03Guards
 import CBV.Lemmas.C03Trans
+import CBV.Lemmas.C03Rev
 
 namespace CBV.C03
 
@@ -847,6 +848,99 @@ theorem T_C03_invert_count_c2c {t : Tol} {L r : ℚ} {n : ℕ} {o : Oracle} {res
 
 example : returned (calculate T0 1 {} { count := some 4, c2c := some (1 / 2) }) = some (some 4, some (1 / 8)) := by
   decide +kernel
+
+/-- (count, total expansion) reversed, end to end: the chop `(count, 1/T)` — with the mirrored solver answer `1/c` for
+    `(1/T) ** (1/(n-1))`, which is exact when `c` was — resolves to the same count, the reciprocal total expansion and the
+    reciprocal cell-to-cell ratio (both ratios on the same side of the `TOL` switch of the start-size formula). -/
+theorem T_C03_invert_count_total {L T : ℚ} {n : ℕ} {o : Oracle} {res : Vals} {c : ℚ}
+    (h : calculate T0 L o { count := some n, total := some T } = .ok res) (hc : o.c2c = some c)
+    (hb : (TOL < absR (c - 1) ∧ TOL < absR (1 / c - 1)) ∨ (absR (c - 1) ≤ TOL ∧ absR (1 / c - 1) ≤ TOL)) :
+    ∃ res', calculate T0 L { o with c2c := some (1 / c) } { count := some n, total := some (1 / T) } = .ok res' ∧
+      res'.count = res.count ∧ res'.total = res.total.map (fun T => 1 / T) ∧
+      res'.c2c = res.c2c.map (fun c => 1 / c) := by
+  obtain ⟨c', s, e, hc', hs, he, rfl⟩ := pair_count_total h
+  obtain ⟨hL, hn, hT, hoc, hpow⟩ := c2cCountTotal_ok hc'
+  have hcc : c' = c := by rw [hc] at hoc; exact (Option.some.inj hoc).symm
+  subst hcc
+  obtain ⟨hc0, hcp⟩ := powOK_zero hpow
+  have hci : 0 < 1 / c' := by positivity
+  have hTi : (1 : ℚ) / T ≠ 0 := by positivity
+  obtain ⟨s', hs'⟩ := startCountC2c_inv_ok hs hc0 hb
+  refine ⟨{ count := some n, start := some s', end_ := some (s' * (1 / T)), c2c := some (1 / c'),
+            total := some (1 / T) }, ?_, rfl, rfl, rfl⟩
+  rw [calculate_ok_iff (k := 2) (by exact plan_count_total), runSteps3]
+  refine ⟨{ count := some n, c2c := some (1 / c'), total := some (1 / T) },
+    { count := some n, start := some s', c2c := some (1 / c'), total := some (1 / T) }, ?_, ?_, ?_⟩
+  · simp only [applyRel, map_ok]
+    refine ⟨1 / c', ?_, rfl⟩
+    unfold c2cCountTotal
+    simp only [guardLen_bind, guardRatio_bind]
+    rw [if_neg (not_le.mpr hL), if_neg (by omega), if_neg hTi, if_neg (not_lt.mpr (by positivity))]
+    unfold oracleC2c
+    simp only
+    rw [if_pos]
+    · rfl
+    · rw [powOK_iff]
+      refine ⟨hci, ?_⟩
+      rw [one_div_pow, hcp]; simp
+  · simp only [applyRel, map_ok]
+    exact ⟨s', hs', rfl⟩
+  · simp only [applyRel, map_ok]
+    refine ⟨_, ?_, rfl⟩
+    unfold endStartTotal
+    simp only [guardLen_bind, guardRatio_bind]
+    rw [if_neg (not_le.mpr hL), if_neg hTi]
+    rfl
+
+
+example : returned (calculate T0 1 { c2c := some 2 } { count := some 4, total := some 8 }) = some (some 4, some 8) ∧
+    returned (calculate T0 1 { c2c := some (1 / 2) } { count := some 4, total := some (1 / 8) }) =
+      some (some 4, some (1 / 8)) ∧ TOL < absR ((2 : ℚ) - 1) ∧ TOL < absR (1 / (2 : ℚ) - 1) := by decide +kernel
+
+/-- (total expansion, cell-to-cell ratio) reversed, end to end: the chop `(1/T, 1/r)` resolves, with the *same* solver
+    answer for `int(log T / log r) + 1`, to the same count and the reciprocal total expansion (the reciprocal ratio
+    must itself be off the `TOL` switch, as the relation demands). -/
+theorem T_C03_invert_c2c_total {L r T : ℚ} {o : Oracle} {res : Vals}
+    (h : calculate T0 L o { c2c := some r, total := some T } = .ok res)
+    (hb : TOL < absR (1 / r - 1)) :
+    ∃ res', calculate T0 L o { c2c := some (1 / r), total := some (1 / T) } = .ok res' ∧
+      res'.count = res.count ∧ res'.total = res.total.map (fun T => 1 / T) := by
+  obtain ⟨n, s, e, hn, hs, he, rfl⟩ := pair_c2c_total h
+  obtain ⟨hL, hT, hr, hex, hside, ho, hn1, hok⟩ := countTotalC2c_ok hn
+  have hri : 0 < 1 / r := by positivity
+  have hTi : 0 < 1 / T := by positivity
+  obtain ⟨s', hs'⟩ := startCountC2c_inv_ok hs hr (Or.inl ⟨hex, hb⟩)
+  refine ⟨{ count := some n, start := some s', end_ := some (s' * (1 / T)), c2c := some (1 / r),
+            total := some (1 / T) }, ?_, rfl, rfl⟩
+  rw [calculate_ok_iff (k := 2) (by exact plan_c2c_total), runSteps3]
+  refine ⟨{ count := some n, c2c := some (1 / r), total := some (1 / T) },
+    { count := some n, start := some s', c2c := some (1 / r), total := some (1 / T) }, ?_, ?_, ?_⟩
+  · simp only [applyRel, map_ok]
+    refine ⟨n, ?_, rfl⟩
+    unfold countTotalC2c
+    simp only [guardLen_bind, guardRatio_bind]
+    have hside' : ¬ ((1 / T - 1) * (1 / r - 1) < 0) := by
+      have : (1 / T - 1) * (1 / r - 1) = (T - 1) * (r - 1) / (T * r) := by
+        field_simp
+        ring
+      rw [this]
+      exact not_lt.mpr (div_nonneg hside (by positivity))
+    rw [if_neg (not_le.mpr hL), if_neg (ne_of_gt hTi), if_neg (ne_of_gt hri), if_neg (not_le.mpr hb),
+      if_neg (by rintro (h | h) <;> linarith), if_neg hside']
+    exact oracleCount_intro ho hn1 (powCountOK_inv hr hT hok)
+  · simp only [applyRel, map_ok]
+    exact ⟨s', hs', rfl⟩
+  · simp only [applyRel, map_ok]
+    refine ⟨_, ?_, rfl⟩
+    unfold endStartTotal
+    simp only [guardLen_bind, guardRatio_bind]
+    rw [if_neg (not_le.mpr hL), if_neg (ne_of_gt hTi)]
+    rfl
+
+
+example : returned (calculate T0 1 { count := some 4 } { c2c := some 2, total := some 8 }) = some (some 4, some 8) ∧
+    returned (calculate T0 1 { count := some 4 } { c2c := some (1 / 2), total := some (1 / 8) }) =
+      some (some 4, some (1 / 8)) ∧ TOL < absR (1 / (2 : ℚ) - 1) := by decide +kernel
 
 /-! ### 7b. histories on one `Chop` object: `calculate` keeps no memory -/
 
